@@ -3,7 +3,8 @@
    the same (peer, names) key; insertion sort returns THE sorted permutation, so any sorting
    algorithm (Go's sort.Sort) and any order of the input give the same list. *)
 From Coq Require Import Sorting.Permutation Sorting.Sorted.
-From Verif Require Import Base.Prelude Intention.Model.
+From Verif Require Import Base.Prelude.
+From Verif Require Import Intention.Model.
 
 (* ---------------------------------------------------------------- comparisons *)
 
